@@ -7,5 +7,6 @@ cp /repo/go.sum ./go.sum.repo 2>/dev/null
 mkdir -p out/bin evidence
 go build -tags verif -o out/bin/vcheck ./cmd/vcheck || exit 2
 go test -c -tags verif -o out/bin/worker.test ./props || exit 2
-rm -f out/bin/worker.test go.sum.repo
+go test -race -c -tags verif -o out/bin/race.test ./props || exit 2
+rm -f out/bin/worker.test out/bin/race.test go.sum.repo
 echo "setup ok: $(go version)"
